@@ -90,3 +90,12 @@ check("C10",
       "every listed name resolves. Model compared with robsd-step -L on generated configurations (ASan) and names resolved through robsd-exec.",
       "Trusted: Lean kernel; translator (step tables, man page lists, Makefile SCRIPTS); config parsing of the generated files is the real parser's; harness.",
       "DESIGN.md#c10")
+
+check("C06",
+      "Lean 4 proof: argv = map/filter over the configured list (per-argument interpolation), exit-status table; differential run with a probe that dumps the argv it really received",
+      "Proof: Exec models config_get_steps' per-argument interpolation, find_step/resolve, exitstatus and hook_to_argv. Theorems: the step argv is exactly the "
+      "interpolated arguments with empty ones dropped, the hook argv the interpolated arguments unfiltered, one value per configured argument (no splitting), "
+      "arguments without '$' reach the command byte for byte; exit status passed through, 128+N for signal N, zero iff the command exited zero; unknown step or "
+      "uninterpolatable schedule gives 1 and runs nothing; no hook configured does nothing. Compared with robsd-exec/robsd-hook (ASan) using a probe command.",
+      "Trusted: Lean kernel; execve/wait semantics; the config values fed to the model are computed by the harness for the variables used; harness.",
+      "DESIGN.md#c06")
